@@ -412,3 +412,21 @@ pub fn verif_generate(shape: &JsonShape) -> String {
     first_pass(shape, &mut scope);
     scope.to_string()
 }
+
+/// Verification hook (cargo feature `verif`): as [`verif_generate`], the shape being given in its
+/// serde (JSON) form, so that a harness need not name the `JsonShape` type this crate links.
+#[cfg(feature = "verif")]
+#[must_use]
+pub fn verif_generate_json(shape_json: &str) -> Option<String> {
+    let shape: JsonShape = serde_json::from_str(shape_json).ok()?;
+    Some(verif_generate(&shape))
+}
+
+/// Verification hook (cargo feature `verif`): the shape this crate's linked `json_shape` infers
+/// from `sources`, in serde (JSON) form; `None` when inference rejects them.
+#[cfg(feature = "verif")]
+#[must_use]
+pub fn verif_infer_json(sources: &[String]) -> Option<String> {
+    let shape = JsonShape::from_sources(sources).ok()?;
+    serde_json::to_string(&shape).ok()
+}
